@@ -7,6 +7,7 @@ import (
 	"rare/pkg/humanize"
 	"rare/pkg/logger"
 	"rare/pkg/readahead"
+	"rare/pkg/verifhook"
 	"strings"
 	"sync"
 	"sync/atomic"
@@ -155,6 +156,7 @@ func (s *Batcher) syncReaderToBatcher(sourceName string, reader io.Reader, batch
 	for readahead.Scan() {
 		batch = append(batch, readahead.Bytes())
 		if len(batch) >= batchSize {
+			verifhook.Point("batch.beforeSend")
 			s.c <- extractor.InputBatch{
 				Batch:      batch,
 				Source:     sourceName,
@@ -167,6 +169,7 @@ func (s *Batcher) syncReaderToBatcher(sourceName string, reader io.Reader, batch
 		}
 	}
 	if len(batch) > 0 {
+		verifhook.Point("batch.beforeSendLast")
 		s.c <- extractor.InputBatch{
 			Batch:      batch,
 			Source:     sourceName,
@@ -194,6 +197,7 @@ func (s *Batcher) syncReaderToBatcherWithTimeFlush(sourceName string, reader io.
 	for readahead.Scan() {
 		batch = append(batch, readahead.Bytes())
 		if len(batch) >= batchSize || time.Since(lastBatchFlush) >= autoFlush {
+			verifhook.Point("batch.beforeSend")
 			s.c <- extractor.InputBatch{
 				Batch:      batch,
 				Source:     sourceName,
@@ -207,6 +211,7 @@ func (s *Batcher) syncReaderToBatcherWithTimeFlush(sourceName string, reader io.
 		}
 	}
 	if len(batch) > 0 {
+		verifhook.Point("batch.beforeSendLast")
 		s.c <- extractor.InputBatch{
 			Batch:      batch,
 			Source:     sourceName,
